@@ -79,6 +79,13 @@ def typeField : FieldD :=
 def fieldOf (s : SchemaD) (parent name : String) : Option FieldD :=
   if isObjOrIface s parent then (s.findType parent).bind fun t => t.fields.find? (·.name == name) else none
 
+/-- the field definition `OverlappingFieldsCanBeMergedChecker` attaches to a selected field
+    (`_collect_fields_and_fragments`): the field of the object / interface parent, and `__typename: String!` on every
+    composite parent (bug-hunt finding C06/3: before the fix only `field_map` was consulted, so `__typename` took no
+    part in the response-shape comparison) -/
+def ovFieldOf (s : SchemaD) (parent name : String) : Option FieldD :=
+  if isComposite s parent && name == "__typename" then some typenameField else fieldOf s parent name
+
 /-- `_get_field_def(schema, parent_type, field)` for a known parent type name -/
 def getFieldDef (s : SchemaD) (parent name : String) : Option FieldD :=
   if s.query == some parent && name == "__schema" then some schemaField
